@@ -216,7 +216,7 @@ package json
 //@   ensures result1 == nil ==> num_acc(q)
 //@   ensures result1 == nil ==> result0 != nil && fresh(result0) && wfNumber(*result0)
 //@   ensures result1 != nil ==> result0 == nil
-//@   ensures num_acc(q) ==> result1 == nil
+//@   ensures @C13 @C01 num_acc(q) ==> result1 == nil
 //@   no_panic
 //@   at return#1 use unfold_numrun(value.data, rangeindex+1); num_dead_absorbing(value.data, rangeindex+1, vlen); num_zexp_closed(value.data, rangeindex+1, vlen)
 //@   loop#1 invariant -1 <= rangeindex && rangeindex < vlen
